@@ -637,11 +637,16 @@ Section GridAlg.
     | None => false
     end.
 
-  (* steps 3-4: estimate, occupancy matrix, placement -- the items in PLACEMENT order *)
-  Definition place (st : GStyle T) (ec er : N) (children : list (GStyle T)) : PB.res (PL.matrix * list PL.item) :=
-    PB.bind (PL.compute_grid_size_estimate (Z.of_N ec) (Z.of_N er) (estimate_styles children)) (fun '(est_c, est_r) =>
+  (* steps 3-4: estimate, occupancy matrix, placement -- the items in PLACEMENT order.  `est`: the placement styles that feed the
+     estimate; `inflow`: the in-flow children (index, style) *)
+  Definition place (st : GStyle T) (ec er : N) (est : list PL.child) (inflow : list (nat * GStyle T)) : PB.res (PL.matrix * list PL.item) :=
+    PB.bind (PL.compute_grid_size_estimate (Z.of_N ec) (Z.of_N er) est) (fun '(est_c, est_r) =>
     PB.bind (PL.with_track_counts est_c est_r) (fun m0 =>
-    PL.place_grid_items m0 (map (fun ic : nat * GStyle T => (Z.of_nat (fst ic), g_child (snd ic))) (in_flow_styles children)) (gs_flow st))).
+    PL.place_grid_items m0 (map (fun ic : nat * GStyle T => (Z.of_nat (fst ic), g_child (snd ic))) inflow) (gs_flow st))).
+
+  (* the style place_grid_items builds the GridItem from: the one the in-flow iterator carries for that index *)
+  Definition style_at (inflow : list (nat * GStyle T)) (node : nat) : GStyle T :=
+    match find (fun ic : nat * GStyle T => Nat.eqb (fst ic) node) inflow with Some ic => snd ic | None => bare_none_gstyle end.
 
   (* GridItem::new_with_placement_style_and_order + resolve_item_track_indexes + determine_if_item_crosses_flexible_or_intrinsic_tracks *)
   Definition ix_of (ln : PB.Ln Z) (counts : PB.TrackCounts) : PB.res (nat * nat) :=
@@ -649,10 +654,10 @@ Section GridAlg.
     PB.bind (PG.into_track_vec_index (PB.l_end ln) counts) (fun e => PB.Ok (Z.to_nat s, Z.to_nat e))).
   Definition crosses (p : track -> bool) (ix : nat * nat) (tracks : list track) : bool :=
     existsb p (firstn (snd ix - S (fst ix)) (skipn (S (fst ix)) tracks)).
-  Definition make_item (st : GStyle T) (children : list (GStyle T)) (col_counts row_counts : PB.TrackCounts)
+  Definition make_item (st : GStyle T) (inflow : list (nat * GStyle T)) (col_counts row_counts : PB.TrackCounts)
              (cols rows : list track) (it : PL.item) : PB.res GItem :=
     let node := Z.to_nat (PL.i_index it) in
-    let cs := nth node children bare_none_gstyle in
+    let cs := style_at inflow node in
     PB.bind (ix_of (PL.i_col it) col_counts) (fun cix =>
     PB.bind (ix_of (PL.i_row it) row_counts) (fun rix =>
     PB.Ok (mkGItem node cs (mkSize (PL.i_col it) (PL.i_row it))
@@ -840,29 +845,33 @@ Section GridAlg.
   Definition hidden_child_input : GIn T :=
     mkGIn Engine.PerformLayout InherentSize AxBoth size_NONE size_NONE (mkSize MaxContent MaxContent) line_false.
 
+  (* what the final loop reads of a child: display:none / box-generating and absolute (with its style) / neither *)
+  Inductive OofChild := OHidden | OAbs (cs : GStyle T) | OSkip.
+  Definition oof_view (cs : GStyle T) : OofChild :=
+    if g_is_none cs then OHidden else if g_visible_absolute cs then OAbs cs else OSkip.
+
   (* "Position hidden and absolutely positioned children": `children` = the suffix of the child list still to visit, `index` = the
      index of its head *)
   Fixpoint out_of_flow_pass (P : Pre) (cas : AB.InBoth (option AE.AlignItems)) (col_counts row_counts : PB.TrackCounts) (bb : Size T)
-           (cols rows : list track) (children : list (GStyle T)) (index order : nat) (content : Size T) (k : Size T -> Alg) : Alg :=
+           (cols rows : list track) (children : list OofChild) (index order : nat) (content : Size T) (k : Size T -> Alg) : Alg :=
     match children with
     | [] => k content
-    | cs :: rest =>
-        if g_is_none cs then
-          Query index hidden_child_input
-                (fun _ => SetLayout index (g_with_order order)
-                                    (out_of_flow_pass P cas col_counts row_counts bb cols rows rest (S index) (S order) content k))
-        else if g_visible_absolute cs then
-          match abs_indexes (gs_column cs) col_counts, abs_indexes (gs_row cs) row_counts with
-          | PB.Ok cix, PB.Ok rix =>
-              let area := abs_area P bb cols rows cix rix in
-              Query index (position_query_input area cas zero cs)
-                    (fun o => let l := position_layout area cas zero cs order o in
-                              SetLayout index l
-                                        (out_of_flow_pass P cas col_counts row_counts bb cols rows rest (S index) (S order)
-                                                          (size_f32_max content (content_size_contribution cs l)) k))
-          | _, _ => Ret panic_out
-          end
-        else out_of_flow_pass P cas col_counts row_counts bb cols rows rest (S index) order content k
+    | OHidden :: rest =>
+        Query index hidden_child_input
+              (fun _ => SetLayout index (g_with_order order)
+                                  (out_of_flow_pass P cas col_counts row_counts bb cols rows rest (S index) (S order) content k))
+    | OAbs cs :: rest =>
+        match abs_indexes (gs_column cs) col_counts, abs_indexes (gs_row cs) row_counts with
+        | PB.Ok cix, PB.Ok rix =>
+            let area := abs_area P bb cols rows cix rix in
+            Query index (position_query_input area cas zero cs)
+                  (fun o => let l := position_layout area cas zero cs order o in
+                            SetLayout index l
+                                      (out_of_flow_pass P cas col_counts row_counts bb cols rows rest (S index) (S order)
+                                                        (size_f32_max content (content_size_contribution cs l)) k))
+        | _, _ => Ret panic_out
+        end
+    | OSkip :: rest => out_of_flow_pass P cas col_counts row_counts bb cols rows rest (S index) order content k
     end.
 
   (* the grid container baseline *)
@@ -887,16 +896,17 @@ Section GridAlg.
 
   (* ================================================================================================ compute_grid_layout *)
 
-  Definition is_in_flow_at (children : list (GStyle T)) (c : nat) : bool :=
-    match nth_error children c with Some s => g_in_flow s | None => false end.
-
-  Definition grid_alg (st : GStyle T) (children : list (GStyle T)) (inp : GIn T) : Alg :=
+  (* compute_grid_layout, given the four things it derives from the child-style list:
+     `est` the placement styles feeding the size estimate, `inflow` the in-flow children (index, style), `flags` which indices are
+     in flow, `oof` the children as the final loop sees them *)
+  Definition grid_core (st : GStyle T) (est : list PL.child) (inflow : list (nat * GStyle T)) (flags : list bool) (oof : list OofChild)
+             (inp : GIn T) : Alg :=
     let P := grid_pre st inp in
     match gi_mode inp, width (p_outer P), height (p_outer P) with
     | Engine.ComputeSize, Some w, Some h => Ret (from_outer_size (mkSize w h))
     | _, _, _ =>
         let '(ec, er) := explicit_counts st P in
-        match place st ec er children with
+        match place st ec er est inflow with
         | PB.Err _ => Ret panic_out
         | PB.Ok (m, placed_items) =>
             let col_counts := PL.track_counts m PB.Horizontal in
@@ -905,10 +915,10 @@ Section GridAlg.
                                                 (lp_sfn (width (gs_gap st))) (column_is_occupied m) in
             let rows0 := initialize_grid_tracks (tc_of row_counts) (gs_template_rows st) (gs_auto_rows st)
                                                 (lp_sfn (height (gs_gap st))) (row_is_occupied m) in
-            match PL.mapM (make_item st children col_counts row_counts cols0 rows0) placed_items with
+            match PL.mapM (make_item st inflow col_counts row_counts cols0 rows0) placed_items with
             | PB.Err _ => Ret panic_out
             | PB.Ok items0 =>
-                run (is_in_flow_at children) (m_size_grid st P inp (mkSS cols0 rows0 zero zero items0))
+                run (fun c => nth c flags false) (m_size_grid st P inp (mkSS cols0 rows0 zero zero items0))
                     (fun '(z, continue) =>
                        if negb continue then Ret (from_outer_size (z_border_box z))
                        else
@@ -921,7 +931,7 @@ Section GridAlg.
                          let cas := to_ae_ib st in
                          inflow_pass cas cols rows items 0 size_ZERO []
                            (fun content placed =>
-                              out_of_flow_pass P cas col_counts row_counts (z_border_box z) cols rows children 0 (length items) content
+                              out_of_flow_pass P cas col_counts row_counts (z_border_box z) cols rows oof 0 (length items) content
                                 (fun content' =>
                                    match container_baseline placed with
                                    | None => Ret (from_outer_size (z_border_box z))
@@ -931,4 +941,39 @@ Section GridAlg.
             end
         end
     end.
+
+  Definition grid_alg (st : GStyle T) (children : list (GStyle T)) (inp : GIn T) : Alg :=
+    grid_core st (estimate_styles children) (in_flow_styles children) (map g_in_flow children) (map oof_view children) inp.
+
+  (* the Rust code does not panic on this container: placement's checked arithmetic succeeds and every box-generating absolute
+     child's lines lie inside the implicit grid (into_track_vec_index asserts it) *)
+  Definition oof_ok (col_counts row_counts : PB.TrackCounts) (c : OofChild) : bool :=
+    match c with
+    | OAbs cs => match abs_indexes (gs_column cs) col_counts, abs_indexes (gs_row cs) row_counts with
+                 | PB.Ok _, PB.Ok _ => true | _, _ => false end
+    | _ => true
+    end.
+  Definition grid_no_panic (st : GStyle T) (children : list (GStyle T)) (inp : GIn T) : bool :=
+    let P := grid_pre st inp in
+    let '(ec, er) := explicit_counts st P in
+    match place st ec er (estimate_styles children) (in_flow_styles children) with
+    | PB.Err _ => false
+    | PB.Ok (m, placed_items) =>
+        let col_counts := PL.track_counts m PB.Horizontal in
+        let row_counts := PL.track_counts m PB.Vertical in
+        let cols0 := initialize_grid_tracks (tc_of col_counts) (gs_template_columns st) (gs_auto_columns st)
+                                            (lp_sfn (width (gs_gap st))) (column_is_occupied m) in
+        let rows0 := initialize_grid_tracks (tc_of row_counts) (gs_template_rows st) (gs_auto_rows st)
+                                            (lp_sfn (height (gs_gap st))) (row_is_occupied m) in
+        match PL.mapM (make_item st (in_flow_styles children) col_counts row_counts cols0 rows0) placed_items with
+        | PB.Err _ => false
+        | PB.Ok _ => forallb (oof_ok col_counts row_counts) (map oof_view children)
+        end
+    end.
 End GridAlg.
+
+Arguments OHidden {T}.
+Arguments OSkip {T}.
+Arguments PRet {T A}.
+Arguments PMeasure {T A}.
+Arguments PBaseline {T A}.
